@@ -16,6 +16,7 @@ MANIFEST = {
     'note': 'Trusted: numpy/scipy and the public interp_envelope stage (its own correctness is C05). One iteration of slack is accepted at the max_iters boundary.',
     'technique': 'reference-model monitor on the real get_next_imf + bounded-iteration (logical step) monitor',
 }
+LOGGER_ON_ODD_SHARDS = 'quarter'   # (sifting logs heavily: a quarter of the shards run with the logger set up)
 BUDGET_S = {'quick': 60, 'thorough': 420}
 NCASES = {'quick': 10000, 'thorough': 120000}
 RULE = ('seeded random first extractions (7 families, n 3..300, stop rule x thresholds x step in (0,1] x max_iters in '
